@@ -45,6 +45,142 @@ theorem run_cloneEnum (lay : Layout) (nd : Bool) (root ret : Nat)
 theorem pre_dropEnum : runPre prog.dropEnumPre Builder.new = Builder.new.add tagLayout := rfl
 theorem pre_cloneEnum : runPre prog.cloneEnumPre Builder.new = Builder.new.add tagLayout := rfl
 
+/-! ## The extracted call decisions, in closed form -/
+
+/-- `call_drop_of` as the source has it today: nothing unless `needs_drop`; the runtime function
+    if there is one; the generated function (and its generation is requested) otherwise — whatever
+    the size of the type -/
+theorem callActs_dropCall (size : Nat) (needs rt : Bool) :
+    callActs prog.dropCall ⟨size, needs, rt⟩ =
+      if needs then (if rt then [.runtime] else [.callGen, .enqueue]) else [] := by
+  cases needs <;> cases rt <;> rfl
+
+/-- `call_clone_function` as the source has it today: the same decision, whatever the size; the
+    size is looked at only for a type that needs no clone (`memcpy` of a positive size) -/
+theorem callActs_cloneCall (size : Nat) (needs rt : Bool) :
+    callActs prog.cloneCall ⟨size, needs, rt⟩ =
+      if needs then (if rt then [.runtime] else [.callGen, .enqueue])
+      else if size == 0 then [] else [.memcpy size] := by
+  cases needs <;> cases rt <;> cases size <;> rfl
+
+/-- the `memcpy` of a field that needs no clone -/
+def copyEv (p q n : Nat) : List Ev := if n == 0 then [] else [.copy p q n]
+
+theorem callDropOf_eq (ρ : Nat → Nat) (t : GTy) (p : Nat) :
+    callDropOf prog t p (dropTy prog ρ t p) = if needsDrop t then dropTy prog ρ t p else [] := by
+  unfold callDropOf callEnv
+  rw [callActs_dropCall]
+  cases t with
+  | leaf id s a dr => cases dr <;> simp [needsDrop, isDrLeaf, dropTy]
+  | record fs => cases h : anyDrop fs <;> simp [needsDrop, isDrLeaf, h]
+  | enum vs => cases h : anyDropV vs <;> simp [needsDrop, isDrLeaf, h]
+
+theorem callCloneOf_eq (ρ : Nat → Nat) (t : GTy) (p q : Nat) :
+    callCloneOf prog t p q (cloneTy prog ρ t p q) =
+      if needsDrop t then cloneTy prog ρ t p q else copyEv p q (layoutOf t).size := by
+  unfold callCloneOf callEnv
+  rw [callActs_cloneCall]
+  cases t with
+  | leaf id s a dr =>
+    cases dr <;> simp [needsDrop, isDrLeaf, cloneTy, copyEv]
+    split <;> simp
+  | record fs =>
+    cases h : anyDrop fs <;> simp [needsDrop, isDrLeaf, h, copyEv]
+    split <;> simp
+  | enum vs =>
+    cases h : anyDropV vs <;> simp [needsDrop, isDrLeaf, h, copyEv]
+    split <;> simp
+
+/-! ## `needs_drop` = `needs_clone` = the closed form, from the extracted arms -/
+
+/-- the two predicates have, kind by kind, the same arm -/
+theorem armOf_drop_eq_clone (k : Kind) : armOf (arms .drop) k = armOf (arms .clone) k := by
+  cases k <;> rfl
+
+theorem needsBy_drop_eq_clone (κ : Nat → Kind) (cd : Nat → Bool) (t : GTy) :
+    needsBy arms κ cd .drop t = needsBy arms κ cd .clone t := by
+  cases t <;> simp only [needsBy, armOf_drop_eq_clone]
+
+mutual
+  theorem needsBy_eq (κ : Nat → Kind) (cd : Nat → Bool) :
+      ∀ (f : Fn) (t : GTy), Kinded κ cd t = true → needsBy arms κ cd f t = needsDrop t
+    | f, .leaf id s a dr, h => by
+      simp only [Kinded, Bool.and_eq_true, beq_iff_eq] at h
+      obtain ⟨hl, hd⟩ := h
+      subst hd
+      cases f <;> cases hk : κ id <;> simp only [hk, Kind.isLeaf] at hl <;>
+        first
+        | exact absurd hl (by decide)
+        | (simp only [needsBy, needsDrop, hk]; rfl)
+    | f, .record fs, h => by
+      obtain ⟨g, hg⟩ : ∃ g, armOf (arms f) .record = some (.anyField g) := by
+        cases f <;> exact ⟨_, rfl⟩
+      simp only [needsBy, hg, needsDrop]
+      exact anyBy_eq κ cd g fs (by simpa only [Kinded] using h)
+    | f, .enum vs, h => by
+      obtain ⟨g, hg⟩ : ∃ g, armOf (arms f) .enum = some (.anyVariantField g) := by
+        cases f <;> exact ⟨_, rfl⟩
+      simp only [needsBy, hg, needsDrop]
+      exact anyVBy_eq κ cd g vs (by simpa only [Kinded] using h)
+  theorem anyBy_eq (κ : Nat → Kind) (cd : Nat → Bool) :
+      ∀ (g : Fn) (fs : GTys), KindedFs κ cd fs = true → anyBy arms κ cd g fs = anyDrop fs
+    | _, .nil, _ => by simp only [anyBy, anyDrop]
+    | g, .cons t ts, h => by
+      simp only [KindedFs, Bool.and_eq_true] at h
+      simp only [anyBy, anyDrop, needsBy_eq κ cd g t h.1, anyBy_eq κ cd g ts h.2]
+  theorem anyVBy_eq (κ : Nat → Kind) (cd : Nat → Bool) :
+      ∀ (g : Fn) (vs : GVars), KindedVs κ cd vs = true → anyVBy arms κ cd g vs = anyDropV vs
+    | _, .nil, _ => by simp only [anyVBy, anyDropV]
+    | g, .cons fs vs, h => by
+      simp only [KindedVs, Bool.and_eq_true] at h
+      simp only [anyVBy, anyDropV, anyBy_eq κ cd g fs h.1, anyVBy_eq κ cd g vs h.2]
+end
+
+/-- `get_runtime_drop` and `get_runtime_clone` find a function exactly for a `CloneDrop` leaf -/
+theorem hasRuntimeBy_eq (κ : Nat → Kind) (cd : Nat → Bool) (t : GTy) (h : Kinded κ cd t = true) :
+    hasRuntimeBy runtimeDropKinds κ cd t = isDrLeaf t
+    ∧ hasRuntimeBy runtimeCloneKinds κ cd t = isDrLeaf t := by
+  cases t with
+  | leaf id s a dr =>
+    simp only [Kinded, Bool.and_eq_true, beq_iff_eq] at h
+    obtain ⟨hl, hd⟩ := h
+    subst hd
+    cases hk : κ id <;> simp only [hk, Kind.isLeaf] at hl <;>
+      first
+      | exact absurd hl (by decide)
+      | (simp only [hasRuntimeBy, isDrLeaf, hk]; exact ⟨by cases cd id <;> rfl, by cases cd id <;> rfl⟩)
+  | record fs => exact ⟨rfl, rfl⟩
+  | enum vs => exact ⟨rfl, rfl⟩
+
+/-- does the runtime lookup (`get_runtime_drop` / `get_runtime_clone`, extracted kinds `pats`) find a
+    function for a type of kind `k` whose movability bit is `cd`? -/
+def rtFound (pats : List KPat) (k : Kind) (cd : Bool) : Bool :=
+  pats.any (·.matches k) && cloneDropOf k cd
+
+/-- `generate_drop_body`, kind by kind: the runtime drop function for String, List and
+    `CloneDrop` registered types; the field loop for records, the switch for enums; nothing for
+    the rest. The `ice!` arm (a List without a runtime drop function) is never reached. -/
+theorem dropBody_decided (k : Kind) (cd : Bool) :
+    dropBody.body (rtFound runtimeDropKinds k cd) k =
+      match k with
+      | .string | .list => .runtime
+      | .runtime => if cd then .runtime else .arm .ret
+      | .record => .arm .recordLoop
+      | .enum => .arm .enumSwitch
+      | .unit | .never | .prim => .arm .ret := by
+  cases k <;> cases cd <;> rfl
+
+/-- `generate_clone_body`: the same, with a `memcpy` for a registered `Copy` type. -/
+theorem cloneBody_decided (k : Kind) (cd : Bool) :
+    cloneBody.body (rtFound runtimeCloneKinds k cd) k =
+      match k with
+      | .string | .list => .runtime
+      | .runtime => if cd then .runtime else .arm .memcpyRet
+      | .record => .arm .recordLoop
+      | .enum => .arm .enumSwitch
+      | .unit | .never | .prim => .arm .ret := by
+  cases k <;> cases cd <;> rfl
+
 /-! ## Types without droppable leaves -/
 
 mutual
@@ -118,7 +254,7 @@ mutual
         dropFields prog ρ fs a b = (leavesFields ρ fs a b).map mkDrop
     | .nil, _, _ => by simp [dropFields, leavesFields]
     | .cons t ts, a, b => by
-      simp only [dropFields, leavesFields, List.map_append, run_dropRecord]
+      simp only [dropFields, leavesFields, List.map_append, run_dropRecord, callDropOf_eq ρ t]
       cases hnd : needsDrop t with
       | true =>
         simp only [if_true, dropTy_eq ρ t, dropFields_eq ρ ts]
@@ -140,7 +276,7 @@ mutual
         dropVFields prog ρ fs a b = (leavesFields ρ fs a b).map mkDrop
     | .nil, _, _ => by simp [dropVFields, leavesFields]
     | .cons t ts, a, b => by
-      simp only [dropVFields, leavesFields, List.map_append, run_dropEnum]
+      simp only [dropVFields, leavesFields, List.map_append, run_dropEnum, callDropOf_eq ρ t]
       cases hnd : needsDrop t with
       | true =>
         simp only [if_true, dropTy_eq ρ t, dropVFields_eq ρ ts]
@@ -158,6 +294,12 @@ theorem cloned_append (xs ys : List Ev) : cloned (xs ++ ys) = cloned xs ++ clone
 
 def noStuck (es : List Ev) : Bool := es.all (fun e => !e.isStuck)
 
+@[simp] theorem cloned_copyEv (p q n : Nat) : cloned (copyEv p q n) = [] := by
+  unfold copyEv; split <;> rfl
+
+@[simp] theorem noStuck_copyEv (p q n : Nat) : noStuck (copyEv p q n) = true := by
+  unfold copyEv; split <;> rfl
+
 theorem noStuck_append (xs ys : List Ev) : noStuck (xs ++ ys) = (noStuck xs && noStuck ys) := by
   simp [noStuck, List.all_append]
 
@@ -173,12 +315,12 @@ mutual
         cloned (cloneFields prog ρ fs s d b) = leaves2Fields ρ fs s d b
     | .nil, _, _, _ => by simp [cloneFields, leaves2Fields, cloned]
     | .cons t ts, s, d, b => by
-      simp only [cloneFields, leaves2Fields, run_cloneRecord, cloned_append]
+      simp only [cloneFields, leaves2Fields, run_cloneRecord, cloned_append, callCloneOf_eq ρ t]
       cases hnd : needsDrop t with
       | true => simp only [if_true, cloneTy_cloned ρ t, cloneFields_cloned ρ ts]
       | false =>
         simp only [leaves2_nil ρ t _ _ hnd, cloneFields_cloned ρ ts]
-        simp [cloned]
+        simp
   theorem cloneVariants_cloned (ρ : Nat → Nat) :
       ∀ (vs : GVars) (s d k : Nat),
         cloned (cloneVariants prog ρ vs s d k) = leaves2Variants ρ vs s d k
@@ -194,12 +336,12 @@ mutual
         cloned (cloneVFields prog ρ fs s d b) = leaves2Fields ρ fs s d b
     | .nil, _, _, _ => by simp [cloneVFields, leaves2Fields, cloned]
     | .cons t ts, s, d, b => by
-      simp only [cloneVFields, leaves2Fields, run_cloneEnum, cloned_append]
+      simp only [cloneVFields, leaves2Fields, run_cloneEnum, cloned_append, callCloneOf_eq ρ t]
       cases hnd : needsDrop t with
       | true => simp only [if_true, cloneTy_cloned ρ t, cloneVFields_cloned ρ ts]
       | false =>
         simp only [leaves2_nil ρ t _ _ hnd, cloneVFields_cloned ρ ts]
-        simp [cloned]
+        simp
 end
 
 mutual
@@ -216,10 +358,10 @@ mutual
     | .nil, _, _, _ => by simp [cloneFields, noStuck]
     | .cons t ts, s, d, b => by
       simp only [cloneFields, run_cloneRecord, noStuck_append, cloneFields_noStuck ρ ts,
-        Bool.and_true]
+        Bool.and_true, callCloneOf_eq ρ t]
       cases hnd : needsDrop t with
       | true => simp only [if_true, cloneTy_noStuck ρ t]
-      | false => simp [noStuck, Ev.isStuck]
+      | false => simp
   theorem cloneVariants_noStuck (ρ : Nat → Nat) :
       ∀ (vs : GVars) (s d k : Nat), noStuck (cloneVariants prog ρ vs s d k) = true
     | .nil, _, _, _ => by simp [cloneVariants, noStuck]
@@ -234,10 +376,10 @@ mutual
     | .nil, _, _, _ => by simp [cloneVFields, noStuck]
     | .cons t ts, s, d, b => by
       simp only [cloneVFields, run_cloneEnum, noStuck_append, cloneVFields_noStuck ρ ts,
-        Bool.and_true]
+        Bool.and_true, callCloneOf_eq ρ t]
       cases hnd : needsDrop t with
       | true => simp only [if_true, cloneTy_noStuck ρ t]
-      | false => simp [noStuck, Ev.isStuck]
+      | false => simp
 end
 
 /-! ## The parallel walk projects onto the leaves of the source and of the copy -/
@@ -309,6 +451,9 @@ theorem tags_append (xs ys : List Ev) : tags (xs ++ ys) = tags xs ++ tags ys := 
   | nil => rfl
   | cons e es ih => cases e <;> simp [tags, ih]
 
+@[simp] theorem tags_copyEv (p q n : Nat) : tags (copyEv p q n) = [] := by
+  unfold copyEv; split <;> rfl
+
 mutual
   theorem cloneTy_tags (ρ : Nat → Nat) :
       ∀ (t : GTy) (s d : Nat), tags (cloneTy prog ρ t s d) = discs2 ρ t s d
@@ -322,10 +467,11 @@ mutual
         tags (cloneFields prog ρ fs s d b) = discs2Fields ρ fs s d b
     | .nil, _, _, _ => by simp [cloneFields, discs2Fields, tags]
     | .cons t ts, s, d, b => by
-      simp only [cloneFields, discs2Fields, run_cloneRecord, tags_append, cloneFields_tags ρ ts]
+      simp only [cloneFields, discs2Fields, run_cloneRecord, tags_append, cloneFields_tags ρ ts,
+        callCloneOf_eq ρ t]
       cases hnd : needsDrop t with
       | true => simp only [if_true, cloneTy_tags ρ t]
-      | false => simp [tags]
+      | false => simp
   theorem cloneVariants_tags (ρ : Nat → Nat) :
       ∀ (vs : GVars) (s d k : Nat),
         tags (cloneVariants prog ρ vs s d k) = discs2Variants ρ vs s d k
@@ -341,10 +487,11 @@ mutual
         tags (cloneVFields prog ρ fs s d b) = discs2Fields ρ fs s d b
     | .nil, _, _, _ => by simp [cloneVFields, discs2Fields, tags]
     | .cons t ts, s, d, b => by
-      simp only [cloneVFields, discs2Fields, run_cloneEnum, tags_append, cloneVFields_tags ρ ts]
+      simp only [cloneVFields, discs2Fields, run_cloneEnum, tags_append, cloneVFields_tags ρ ts,
+        callCloneOf_eq ρ t]
       cases hnd : needsDrop t with
       | true => simp only [if_true, cloneTy_tags ρ t]
-      | false => simp [tags]
+      | false => simp
 end
 
 /-- `ρ'` holds at every destination what `ρ` holds at the source -/
@@ -418,6 +565,16 @@ def exF : GTy := .enum
   (.cons (.cons u64 (.cons tk .nil))
   (.cons (.cons u8 (.cons str (.cons u64 (.cons tk .nil))))
   (.cons (.cons tk (.cons u64 .nil))
+  (.cons .nil .nil))))
+
+/-- a registered `#[clone]` type of size 0 -/
+def tz : GTy := .leaf 3 0 1 true
+
+/-- `enum Z { P(u64, Tz), Q(Tz, Tk), R(Tz), N }` -/
+def exZ : GTy := .enum
+  (.cons (.cons u64 (.cons tz .nil))
+  (.cons (.cons tz (.cons tk .nil))
+  (.cons (.cons tz .nil)
   (.cons .nil .nil))))
 end Ex
 
